@@ -19,7 +19,8 @@ def obedient_child(running, log_path=None):
 # ---------------------------------------------------------------------------
 # C29: device classes that a spawned child can re-import by name
 # ---------------------------------------------------------------------------
-C29_FORMATS = ["B", "H", "I", "Q", "b", "h", "i", "q", "x", "x"]
+C29_FORMATS = ["B", "H", "I", "Q", "b", "h", "i", "q", "x", "x", "IH", "QB",
+               "HB", "3H"]
 
 
 def _c29_formats(k):
